@@ -109,6 +109,9 @@ def run_shard(args):
             cur = res["failures"].get(v.signature)
             if cur is None or size < cur["size"]:
                 res["failures"][v.signature] = {"case": case, "detail": v.detail, "size": size}
+            if getattr(mod, "COLLECT", False):
+                # collect-only mode (cases are already minimal): keep searching, no shrinking
+                return
             if state["first_fail"] is None:
                 state["first_fail"] = time.time()
             best = min(res["failures"].values(), key=lambda f: f["size"])
